@@ -474,7 +474,8 @@ func (g *gen) field(thisField, thatField string, fieldType types.Type) (string, 
 		return fmt.Sprintf("%s(%s, %s)", g.GetFuncName(typ, typ), thisField, thatField), nil
 	case *types.Slice:
 		if b, ok := typ.Elem().(*types.Basic); ok && b.Kind() == types.Byte {
-			return fmt.Sprintf("%s.Equal(%s, %s)", g.bytesPkg(), thisField, thatField), nil
+			// bytes.Equal treats a nil slice and an empty slice as equal.
+			return fmt.Sprintf("((%[1]s == nil) == (%[2]s == nil) && %[3]s.Equal(%[1]s, %[2]s))", thisField, thatField, g.bytesPkg()), nil
 		}
 		return fmt.Sprintf("%s(%s, %s)", g.GetFuncName(typ, typ), thisField, thatField), nil
 	case *types.Map:
